@@ -1,6 +1,241 @@
-(* C12 - placeholder while the proofs are being built; replaced below *)
-From Coq Require Import ZArith Lia.
+(* C12 - MuSig2 computes BIP-327.
+   Theorems about Model/Musig.v; the specification side is the literal transcription Spec/Bip327.v.
+   Only cbytes_injective_on_curve and honest_partial_sig_verifies take the mathematical premises [MathFacts].
+   NOT proved (see evidence): validity of the AGGREGATE of an honest session under BIP-340
+   (honest_session_valid; only its signer-level half honest_partial_sig_verifies is proved), the accumulator invariant Q = g.gacc.Q0 + tacc.G, partial_verify_eq_spec (the C
+   code tests -s.G + e.P + R = infinity, the BIP s.G = R + e.P: equivalent only under the group law) and
+   the adaptor variant of process_eq_spec; those are tied to BIP-327 by correspondence only. *)
+From Coq Require Import ZArith List Bool.
+Require Import Spec.Params Spec.Curve Spec.Bytes Spec.Sha256 Spec.Bip327.
+Require Import Model.Base Model.Keys Model.Musig.
+Require Import Proofs.BytesLemmas Proofs.MathFacts Proofs.MusigProofs.
+Require Proofs.Toy.
+Import ListNotations.
 Local Open Scope Z_scope.
-Theorem placeholder_c12 : 1 + 1 = 2.
-Proof. reflexivity. Qed.
-Print Assumptions placeholder_c12.
+
+(* ---- nonce_gen_counter: the FULL 64-bit counter is in the hash input (be64 is injective) *)
+Theorem nonce_gen_counter_full_counter : forall c c',
+  0 <= c < 2 ^ 64 -> 0 <= c' < 2 ^ 64 -> counter_buf c = counter_buf c' -> c = c'.
+Proof. exact counter_buf_inj. Qed.
+Print Assumptions nonce_gen_counter_full_counter.
+
+Theorem nonce_gen_counter_low32_not_enough : forall c,
+  0 <= c -> c + 2 ^ 32 < 2 ^ 64 -> counter_buf c <> counter_buf (c + 2 ^ 32).
+Proof. exact counter_buf_plus_2_32. Qed.
+Print Assumptions nonce_gen_counter_low32_not_enough.
+
+(* nonce_gen_counter = nonce_gen_internal on be64(counter) || 0^24 with the keypair's secret and public key *)
+Theorem nonce_gen_counter_layout : forall P before want_pubnonce cnt kpb msg32 cache extra32,
+  ng_res_of (nonce_gen_counter_sec P true before want_pubnonce cnt (Some kpb) msg32 cache extra32) =
+  Some (nonce_gen_internal P want_pubnonce (be_enc 8 cnt ++ zeros 24) (Some (firstn 32 kpb)) (Some (skipn 32 kpb)) msg32 cache extra32).
+Proof. exact nonce_gen_counter_layout. Qed.
+Print Assumptions nonce_gen_counter_layout.
+
+(* whenever nonce_gen_internal runs to the end, the two scalars are the nonce function of exactly the given
+   input buffer, the serialised public key, and the x coordinate of the cache's aggregate key (if any) *)
+Theorem nonce_gen_uses_nonce_function : forall P want_pubnonce input seckey pubkey msg32 cache extra32 ok k1 k2 pk,
+  nonce_gen_internal P want_pubnonce input seckey pubkey msg32 cache extra32 = NgDone ok k1 k2 pk ->
+  exists aggpk, (k1, k2) = nonce_fn_musig P input msg32 seckey (ser33 pk) aggpk extra32 /\
+    (cache = None -> aggpk = None) /\
+    (forall cb, cache = Some cb -> exists ci, cache_load P cb = Some ci /\ aggpk = Some (fe_to_b32 (px (c_pk ci)))).
+Proof. exact nonce_gen_internal_k. Qed.
+Print Assumptions nonce_gen_uses_nonce_function.
+
+(* the nonce function is BIP-327 NonceGen (k_1, k_2) for the argument shapes the C API can express *)
+Theorem nonce_gen_eq_spec : forall P rand' sk pk33 aggpk msg extra,
+  length pk33 = 33%nat ->
+  (forall a, aggpk = Some a -> length a = 32%nat) ->
+  (forall m, msg = Some m -> length m = 32%nat) ->
+  (forall e, extra = Some e -> length e = 32%nat) ->
+  nonce_fn_musig P rand' msg sk pk33 aggpk extra =
+  (Bip327.nonce_gen_k P rand' sk pk33 aggpk msg extra 1, Bip327.nonce_gen_k P rand' sk pk33 aggpk msg extra 2).
+Proof. exact nonce_fn_eq_spec. Qed.
+Print Assumptions nonce_gen_eq_spec.
+
+(* ---- key aggregation *)
+Theorem keyagg_second_key_coefficient_one : forall P h x y, keyaggcoef P h (Some (x, y)) (Some (x, y)) = 1.
+Proof. exact keyaggcoef_second_one. Qed.
+Print Assumptions keyagg_second_key_coefficient_one.
+
+(* for every non-empty list of public keys (duplicates allowed) given as canonical objects of points with
+   in-range coordinates on which cbytes is injective (true for curve points), pubkey_agg returns BIP-327 KeyAgg:
+   the cache holds Q, the second key, the key-list hash, gacc = 1 (parity 0), tacc = 0; agg_pk is Q with even y *)
+Theorem keyagg_eq_spec : forall P F rest want_agg want_cache,
+  let pts := F :: rest in
+  Forall valid_pt pts -> cbytes_inj_on pts ->
+  musig_pubkey_agg P want_agg want_cache (Some (map pk_obj pts)) =
+  match Bip327.key_agg P pts with
+  | Some ctx => [AInt 1; out_opt want_agg (pk_obj (fst (even_y P (Bip327.ctx_Q ctx))));
+                 out_opt want_cache (cache_save (mkCache (Bip327.ctx_Q ctx) (second_pt F rest)
+                                                 (Bip327.hash_keys (map (Bip327.cbytes) pts)) 0 0))]
+  | None => abstain
+  end.
+Proof. exact keyagg_eq_spec_lemma. Qed.
+Print Assumptions keyagg_eq_spec.
+
+(* ---- tweaking: for ANY sequence of plain / x-only tweaks the cache accumulators follow BIP-327 ApplyTweak
+   (cache_rel: same Q; parity_acc = 0 <-> gacc = 1, parity_acc = 1 <-> gacc = n-1; tweak = tacc) *)
+Theorem tweak_eq_spec : forall P tw ci ctx,
+  2 < cn P -> Forall (fun tx => bytes_okP (fst tx)) tw -> cache_rel P ci ctx ->
+  match tweak_steps P ci tw, Bip327.apply_tweaks P ctx tw with
+  | Some ci', Some ctx' => cache_rel P ci' ctx' /\ c_second ci' = c_second ci /\ c_hash ci' = c_hash ci
+  | None, None => True
+  | _, _ => False
+  end.
+Proof. exact tweak_steps_spec. Qed.
+Print Assumptions tweak_eq_spec.
+
+Theorem tweak_api_is_tweak_step : forall P xonly want_out c t ci,
+  cache_load P c = Some ci ->
+  musig_pubkey_tweak_add P xonly want_out (Some c) (Some t) =
+  match tweak_step P xonly ci t with
+  | None => [AInt 0; out_opt want_out pk_obj_zero; ABytes c]
+  | Some ci' => [AInt 1; out_opt want_out (pk_obj (c_pk ci')); ABytes (cache_save ci')]
+  end.
+Proof. exact musig_pubkey_tweak_add_unfold. Qed.
+Print Assumptions tweak_api_is_tweak_step.
+
+Theorem keyagg_cache_starts_related : forall P Q second h, 0 < cn P ->
+  cache_rel P (mkCache Q second h 0 0) (Bip327.mkCtx Q 1 0).
+Proof. exact cache_rel_init. Qed.
+Print Assumptions keyagg_cache_starts_related.
+
+(* ---- parsers: exact acceptance sets *)
+Theorem partial_sig_parse_exact : forall P in32,
+  musig_partial_sig_parse P in32 =
+  if cn P <=? be_val in32 then [AInt 0; ABytes (zeros 36)]
+  else [AInt 1; ABytes (magic_psig ++ be_enc 32 (be_val in32 mod cn P))].
+Proof. exact partial_sig_parse_exact. Qed.
+Print Assumptions partial_sig_parse_exact.
+
+Theorem pubnonce_parse_rejects : forall P in66,
+  eckey_pubkey_parse P (firstn 33 in66) = None \/ eckey_pubkey_parse P (skipn 33 in66) = None ->
+  musig_pubnonce_parse P in66 = [AInt 0; ABytes (zeros 132)].
+Proof. exact pubnonce_parse_rejects. Qed.
+Print Assumptions pubnonce_parse_rejects.
+
+Theorem pubnonce_parse_accepts : forall P in66 R1 R2,
+  eckey_pubkey_parse P (firstn 33 in66) = Some R1 -> eckey_pubkey_parse P (skipn 33 in66) = Some R2 ->
+  musig_pubnonce_parse P in66 = [AInt 1; ABytes (magic_pubnonce ++ pk_obj R1 ++ pk_obj R2)].
+Proof. exact pubnonce_parse_accepts. Qed.
+Print Assumptions pubnonce_parse_accepts.
+
+Theorem pubnonce_rejects_infinity_encoding : forall P, eckey_pubkey_parse P (zeros 33) = None.
+Proof. exact eckey_parse_zeros33. Qed.
+Print Assumptions pubnonce_rejects_infinity_encoding.
+
+Theorem aggnonce_accepts_infinity_encoding : forall P, ge_parse_ext P (zeros 33) = Some None.
+Proof. exact ge_parse_ext_zeros33. Qed.
+Print Assumptions aggnonce_accepts_infinity_encoding.
+
+Theorem aggnonce_parse_exact : forall P in66,
+  musig_aggnonce_parse P in66 =
+  match ge_parse_ext P (firstn 33 in66), ge_parse_ext P (skipn 33 in66) with
+  | Some R1, Some R2 => [AInt 1; ABytes (magic_aggnonce ++ pk_obj R1 ++ pk_obj R2)]
+  | _, _ => [AInt 0; ABytes (zeros 132)]
+  end.
+Proof. exact aggnonce_parse_exact. Qed.
+Print Assumptions aggnonce_parse_exact.
+
+Theorem partial_sig_serialize_rejects_foreign_magic : forall o,
+  bytes_eqb (firstn 4 o) magic_psig = false -> musig_partial_sig_serialize o = [AInt 0; ABytes (zeros 32); AIll 1].
+Proof. exact partial_sig_serialize_rejects. Qed.
+Print Assumptions partial_sig_serialize_rejects_foreign_magic.
+
+(* ---- adaptor: adapt and extract are inverse (both nonce parities), scalar level and API level *)
+Theorem adapt_extract_inverse : forall P s t par, 0 < cn P -> 0 <= t < cn P -> (par = 0 \/ par = 1) ->
+  extract_scalar P (adapt_scalar P s t par) s par = t.
+Proof. exact adapt_extract_scalar. Qed.
+Print Assumptions adapt_extract_inverse.
+
+Theorem extract_adapt_inverse : forall P s' s par, 0 < cn P -> 0 <= s' < cn P -> (par = 0 \/ par = 1) ->
+  adapt_scalar P s (extract_scalar P s' s par) par = s'.
+Proof. exact extract_adapt_scalar. Qed.
+Print Assumptions extract_adapt_inverse.
+
+Theorem adapt_extract_inverse_api : forall P rx s t par,
+  0 <= s < cn P -> 0 <= t < cn P -> cn P <= 2 ^ 256 -> length rx = 32%nat -> (par = 0 \/ par = 1) ->
+  let s' := adapt_scalar P s t par in
+  musig_adapt P (Some (rx ++ be_enc 32 s)) (Some (be_enc 32 t)) par = [AInt 1; ABytes (rx ++ be_enc 32 s')] /\
+  musig_extract_adaptor P (Some (rx ++ be_enc 32 s')) (Some (rx ++ be_enc 32 s)) par = [AInt 1; ABytes (be_enc 32 t)].
+Proof. exact adapt_extract_api. Qed.
+Print Assumptions adapt_extract_inverse_api.
+
+(* ---- nonce aggregation, session creation, partial signing, aggregation = BIP-327 *)
+Theorem nonce_agg_eq_spec : forall P p0 pubs,
+  Forall (fun R => valid_pt (fst R) /\ valid_pt (snd R)) (p0 :: pubs) ->
+  musig_nonce_agg P (Some (map (fun R => pubnonce_save (fst R) (snd R)) (p0 :: pubs))) =
+  [AInt 1; ABytes (aggnonce_save (fst (Bip327.nonce_agg P (p0 :: pubs))) (snd (Bip327.nonce_agg P (p0 :: pubs))))].
+Proof. exact nonce_agg_eq_spec_lemma. Qed.
+Print Assumptions nonce_agg_eq_spec.
+
+(* without adaptor: b, the final nonce R (G substituted for infinity), its parity, e are GetSessionValues;
+   the s-part is e * tacc with the sign of the aggregate key's parity *)
+Theorem process_eq_spec : forall P an m c ci R1 R2,
+  cache_load P c = Some ci -> aggnonce_load an = Some (R1, R2) ->
+  let Q := c_pk ci in
+  let R := Bip327.session_R P R1 R2 Q m in
+  musig_nonce_process P (Some an) (Some m) (Some c) None =
+  [AInt 1; ABytes (session_save (mkSession (b2z (Z.odd (py R))) (Bip327.xbytes R) (Bip327.session_b P R1 R2 Q m)
+                                           (Bip327.session_e P R1 R2 Q m)
+                                           (session_s_part P ci (Bip327.session_e P R1 R2 Q m))))].
+Proof. exact nonce_process_eq_spec_lemma. Qed.
+Print Assumptions process_eq_spec.
+
+Theorem partial_sign_eq_spec : forall P sec k1 k2 pk kp d c ci se si ctx R,
+  secnonce_load P sec = Some (k1, k2, pk) -> keypair_load P kp = Some (d, pk) ->
+  cache_load P c = Some ci -> session_load P se = Some si ->
+  cache_rel P ci ctx -> (s_parity si =? 0) = Bip327.has_even_y R ->
+  partial_sign_core P sec true (Some kp) (Some c) (Some se) =
+  (true, 0, Some (Bip327.sign_s P ctx R (s_b si) (s_e si) (keyaggcoef P (c_hash ci) pk (c_second ci)) k1 k2 d)).
+Proof. exact partial_sign_eq_spec_lemma. Qed.
+Print Assumptions partial_sign_eq_spec.
+
+Theorem keyaggcoef_eq_spec : forall P pts Q second,
+  Forall valid_pt pts -> cbytes_inj_on pts -> In Q pts -> (second = None \/ In second pts) ->
+  keyaggcoef P (pks_hash_of pts) Q second =
+  Bip327.key_agg_coeff_internal P (map Bip327.cbytes pts) (Bip327.cbytes Q) (Bip327.cbytes_ext second).
+Proof. exact keyaggcoef_spec. Qed.
+Print Assumptions keyaggcoef_eq_spec.
+
+Theorem agg_eq_spec : forall P se si ci ctx R ss,
+  session_load P se = Some si -> cache_rel P ci ctx ->
+  s_part si = session_s_part P ci (s_e si) -> s_fin si = Bip327.xbytes R ->
+  ss <> [] -> Forall (fun s => 0 <= s < cn P) ss -> 0 < cn P <= 2 ^ 256 ->
+  musig_partial_sig_agg P (Some se) (Some (map psig_save ss)) =
+  [AInt 1; ABytes (Bip327.partial_sig_agg P ctx R (s_e si) ss)].
+Proof. exact partial_sig_agg_eq_spec_lemma. Qed.
+Print Assumptions agg_eq_spec.
+
+(* the injectivity premise of keyagg_eq_spec holds for curve points [MathFacts: p prime, p = 3 mod 4] *)
+Theorem cbytes_injective_on_curve : forall P, MathFacts.MathFacts P -> cp P < 2 ^ 256 ->
+  forall pts, Forall (fun Q => MathFacts.oc P Q /\ Q <> None) pts -> cbytes_inj_on pts.
+Proof. exact cbytes_inj_on_curve. Qed.
+Print Assumptions cbytes_injective_on_curve.
+
+(* ---- completeness, signer level [MathFacts]: the partial signature the model computes for a signer with
+   secret d and secret nonces k1, k2 passes the model's partial verification against the signer's public
+   key d.G and public nonce (k1.G, k2.G), for EVERY cache and session content (any tweak history, parity
+   accumulator, nonce coefficient b, challenge e, nonce parity: with or without adaptor). *)
+Theorem honest_partial_sig_verifies : forall P, MathFacts.MathFacts P -> forall ci si d k1 k2,
+  0 <= d < cn P -> 0 <= k1 < cn P -> 0 <= k2 < cn P ->
+  0 <= s_b si < cn P -> 0 <= s_e si < cn P ->
+  let pk := Curve.pmul P d (Curve.G P) in
+  let s := partial_sign_scalar P ci si k1 k2 pk d in
+  partial_sig_verify_core P ci si s (Curve.pmul P k1 (Curve.G P)) (Curve.pmul P k2 (Curve.G P)) pk = true.
+Proof. exact honest_partial_sig_verifies_lemma. Qed.
+Print Assumptions honest_partial_sig_verifies.
+
+(* not vacuous: MathFacts is PROVED for the toy curve y^2 = x^3 + 7 over F_43 (Proofs/Toy.v) *)
+Example honest_partial_sig_verifies_toy := honest_partial_sig_verifies Toy.toy Toy.toy_MathFacts.
+
+(* the premises of keyagg_eq_spec are satisfiable: the key list [G; -G; G] on secp256k1 *)
+Example keyagg_premises :
+  let pts := [G secp256k1; pneg secp256k1 (G secp256k1); G secp256k1] in
+  Forall valid_pt pts /\ cbytes_inj_on pts.
+Proof.
+  split.
+  - repeat constructor; vm_compute; repeat split; congruence.
+  - intros A B HA HB. simpl in HA, HB.
+    destruct HA as [<-|[<-|[<-|[]]]]; destruct HB as [<-|[<-|[<-|[]]]]; intros H; try reflexivity; vm_compute in H; discriminate.
+Qed.
